@@ -7,9 +7,22 @@ THEOREMS: dict[str, list[str]] = {
         "Rbacx.C02.c02_first_applicable",
         "Rbacx.C02.c02_none_applicable",
     ],
+    "C18": [
+        "Rbacx.C18.c18_closure",
+        "Rbacx.C18.c18_sorted_nodup",
+        "Rbacx.C18.c18_empty",
+        "Rbacx.C18.c18_terminates",
+        "Rbacx.C18.c18_cycle",
+        "Rbacx.C18.c18_model_meets_spec",
+        "Rbacx.C18.c18_spec_verdict_sound",
+        "Rbacx.C18.c18_engine_uses_expansion",
+        "Rbacx.C18.c18_engine_fallback",
+        "Rbacx.C18.c18_engine_transparent",
+        "Rbacx.C18.c18_engine_static",
+    ],
 }
 
-PROPERTY_IMPORTS = ["Rbacx.Properties.C02"]
+PROPERTY_IMPORTS = ["Rbacx.Properties.C02", "Rbacx.Properties.C18"]
 
 
 def audit_source() -> str:
